@@ -666,6 +666,13 @@ class Interp(ExprMixin):
             rec["held_may"] = lk in st.held_may
             rec["handling"] = st.handling
             probes = frozenset((c, k, h - {lk}) for (c, k, h) in st.probes)
+            if lk not in st.held_must:
+                # list.remove(x) raises ValueError when this call does not hold the claim (it then
+                # either fails, or - worse - removes another caller's claim of the same key)
+                out.add_raise("ValueError", st)
+                if lk not in st.held_may:
+                    rec["after"] = None
+                    return None
             st = st.set(held_must=st.held_must - {lk}, held_may=st.held_may - {lk}, probes=probes)
             rec["after"] = st
             return st
